@@ -18,7 +18,8 @@ for d in sorted(glob.glob("/verif/seeded/*/")):
             rows.append((sid, "PATCH-DOES-NOT-APPLY", "")); continue
         caught = []
         for p in props:
-            r = subprocess.run(["/verif/bin/plencvc", "check", "--property", p, "--repo", s, "--no-evidence", "--replay-dir", s + "/.replays"], env=env, capture_output=True, text=True)
+            files = [l[6:].strip() for l in open(d + "patch.diff") if l.startswith("+++ b/")]
+            r = subprocess.run(["/verif/bin/plencvc", "check", "--property", p, "--repo", s, "--no-evidence", "--replay-dir", s + "/.replays", "--files", ",".join(files)], env=env, capture_output=True, text=True)
             v = [l for l in r.stdout.splitlines() if l.startswith("VIOLATION")]
             if r.returncode == 1 and v:
                 caught.append(f"{p}:{len(v)}({sum('no-failing-input-found' not in l for l in v)} replayed)")
